@@ -7,6 +7,13 @@ CONC_NOTE = ("Proved for all interleavings of the atomic steps of any number of 
              "a weakened ordering is detected as a broken correspondence (… no-failing-input-found), it cannot be exhibited by an SC scheduler. ")
 
 META = {
+    "C20": dict(
+        text="Kernel-checked over the arm table REGENERATED from src/macros.rs on every run: arms_expand_to_spec (decide +kernel: every arm of every exported macro accepts a trailing comma and, with nested invocations resolved by arity / marker tokens, fully expands to the explicit constructor call, "
+             "registered in the named or the default registry and mapped to the registered handle - placeholders stand for all argument values), labels_macro_ok, macro_count. "
+             "Tie: one real call site per public form x trailing comma with run-time arguments; oracle: the metric equals the one the explicit call creates (fq name, help, const labels, variable labels, buckets), it is registered in the named / default registry and nowhere else; "
+             "the driver's expected output is computed from the specification term of the form.",
+        note="The expansion semantics of macro_rules! for these fragment kinds (first arm matching by arity / marker token) is modelled; rustc's actual expansion is exercised per call site.",
+    ),
     "C16": dict(
         text="Kernel-checked over the two data models (protobuf-generated types with optional fields and default-on-read + proto_ext.rs, vs plain_model.rs): metric_step / family_step (every setter / take / push the library performs commutes with the abstraction), "
              "build_agree, render_agree (for EVERY sequence of data-model calls from default(): name, help, type, labels, counter/gauge value, histogram count/sum/buckets and timestamp read the same in both models), defaults_agree. "
